@@ -104,7 +104,12 @@ fn seq_order(kind: u8, fold: bool) {
     let mut tree: Instruction = match kind {
         0 => crate::instruction::array::Array { instructions: elems, element_type: Type::Int }.into(),
         1 => crate::instruction::tuple::Tuple { elements: elems }.into(),
+        // (built only with the experimental harnesses: a tree that reshapes the `Struct` instruction must not stop the
+        //  other harnesses of this file from compiling)
+        #[cfg(feature = "verif_experimental")]
         _ => Struct { idents: Arc::from(crate::vv![Arc::<str>::from("x"), Arc::<str>::from("y")]), values: elems }.into(),
+        #[cfg(not(feature = "verif_experimental"))]
+        _ => panic!("struct literals are not built in this tier"),
     };
     if fold { tree = folded(&tree); }
     let r = run(&tree);
